@@ -1549,7 +1549,10 @@ def _map_identifiers(identifiers: Sequence[str],
         remapped_identifiers = identifiers
         sort_idx = np.arange(len(identifiers))
     else:
-        remapped_identifiers = np.array([mapping[identifier] for identifier in identifiers])
+        try:
+            remapped_identifiers = np.array([mapping[identifier] for identifier in identifiers])
+        except KeyError as err:
+            raise ValueError(f'Identifier mapping has no entry for identifier {err}.') from err
         sort_idx = np.argsort(remapped_identifiers)
 
     return remapped_identifiers, sort_idx
